@@ -99,6 +99,8 @@ pub async fn make_socket(ctx: &Context, cfg: &HashMap<String, String>) -> Result
       "rivl" => set_i32(&s, o::RECONNECT_IVL, v.parse().unwrap()).await?,
       "rivlmax" => set_i32(&s, o::RECONNECT_IVL_MAX, v.parse().unwrap()).await?,
       "uring" => set_i32(&s, o::IO_URING_SESSION_ENABLED, v.parse().unwrap()).await?,
+      "sndbuf" => set_i32(&s, o::SNDBUF, v.parse().unwrap()).await?,
+      "rcvbuf" => set_i32(&s, o::RCVBUF, v.parse().unwrap()).await?,
       _ => {}
     }
   }
@@ -1520,7 +1522,7 @@ async fn bigmulti(p: &[&str]) -> String {
 /// later; -1: skipped). B: the sender sends numbered messages to a receiver that does not read, until a send is
 /// refused (SNDTIMEO 0 / d: error class and timing checked) or blocks (SNDTIMEO -1: it must stay blocked for `hold`
 /// ms and complete once the receiver drains). The number accepted meanwhile must stay within
-/// 2*SNDHWM + SNDBATCH_COUNT + RCVHWM + per-read allowance + kernel allowance. C: the receiver drains: exactly the
+/// 3*SNDHWM + SNDBATCH_COUNT + RCVHWM + per-read allowance + kernel allowance (inproc: 2*RCVHWM + RCVBATCH_COUNT + SNDHWM). C: the receiver drains: exactly the
 /// accepted messages arrive, in order; the refused one never does.
 async fn hwm(p: &[&str]) -> String {
   let opts = parse_kv(p[1]);
@@ -1595,8 +1597,21 @@ async fn hwm(p: &[&str]) -> String {
     frames
   };
   let per_read = 64 * 1024 / (size + 2) + 2; // messages one read can hold (read buffers are at most a few 10 KiB)
-  let kernel = 8 * 1024 * 1024 / (size + 2) + 4; // loopback socket buffers
-  let bound = 2 * sndhwm + sbc + rcvhwm + 2 * per_read + if transport == "inproc" { 0 } else { kernel } + 4;
+  // kernel socket buffers: what SNDBUF/RCVBUF allow when set (Linux doubles the value and lets the window run a
+  // little ahead of it), otherwise up to the autotuning limits
+  let kbytes = match (scfg.get("sndbuf"), rcfg.get("rcvbuf")) {
+    (Some(a), Some(b)) => 4 * (a.parse::<usize>().unwrap_or(0) + b.parse::<usize>().unwrap_or(0)) + 256 * 1024,
+    _ => 40 * 1024 * 1024,
+  };
+  let kernel = kbytes / (size + 2) + 4;
+  let rbc = geti(&rcfg, "rbc", 128).max(1) as usize;
+  let bound = if transport == "inproc" {
+    // inproc: the pipe between the sockets holds RCVHWM, its reader task up to RCVBATCH_COUNT, the socket's queue RCVHWM;
+    // DEALER adds its pending queue (SNDHWM)
+    2 * rcvhwm + rbc + sndhwm + 4
+  } else {
+    2 * sndhwm + sbc + rcvhwm + 2 * per_read + kernel + sndhwm + 4
+  };
   let mut accepted: u32 = 0;
   let mut blocked: Option<tokio::task::JoinHandle<Result<(), ZmqError>>> = None;
   let cap = (bound as u32).saturating_add(50).min(200_000);
@@ -1649,15 +1664,22 @@ async fn hwm(p: &[&str]) -> String {
   if (accepted as usize) > bound {
     problems.push(format!("{} messages buffered for one connection, bound {}", accepted, bound));
   }
+  let mut returned_early = false;
   if let Some(h) = blocked.as_mut() {
     // SNDTIMEO -1: stays blocked while there is no room
     match tokio::time::timeout(hold, &mut *h).await {
       Err(_) => {}
-      Ok(r) => problems.push(format!("the blocked send returned {:?} after at most {} ms without room", r.map(|x| x.map_err(|e| err_class(&e))), hold.as_millis() + 500)),
+      Ok(r) => {
+        returned_early = true;
+        problems.push(format!("the blocked send (SNDTIMEO -1) returned {:?} within {} ms although there was no room", r.map(|x| x.map_err(|e| err_class(&e))), hold.as_millis() + 500))
+      }
     }
   }
+  if returned_early {
+    blocked = None;
+  }
   // C: drain
-  let _ = set_i32(&rcv, o::RCVTIMEO, 700).await;
+  let _ = set_i32(&rcv, o::RCVTIMEO, 2500).await;
   let mut expect: u32 = 0;
   let mut extra_ok = false;
   loop {
